@@ -66,7 +66,8 @@ structure SameBooks (p q : Patron) : Prop where
 theorem transmitRedirect_cases (S : Std) (p : Patron) (path : Str) (qargs : List (Str × Str)) (fragment : Str) :
     (∃ e, transmitRedirect S p path qargs fragment = ⟨p, [], some e⟩) ∨
     (∃ r' s, build S { p.req with path := path, qargs := qargs, fragment := fragment, body := [] } = .ok (r', s)
-      ∧ transmitRedirect S p path qargs fragment = ⟨{ p with req := r', waited := true }, [Effect.send p.conn s], none⟩) := by
+      ∧ transmitRedirect S p path qargs fragment
+          = ⟨{ p with req := r', waited := true, unsent := p.unsent ++ [(p.conn, s)] }, [Effect.send p.conn s], none⟩) := by
   unfold transmitRedirect
   simp only []
   split
@@ -79,13 +80,28 @@ theorem transmitRequest_cases (S : Std) (p : Patron) (q : Request) :
     (∃ r' s, build S { p.req with method := asciiUpper q.method, path := q.path, qargs := q.qargs, body := q.body }
         = .ok (r', s)
       ∧ transmitRequest S p q
-        = ⟨{ p with req := r', waited := true, respMethod := r'.method }, [Effect.send p.conn s], none⟩) := by
+        = ⟨{ p with req := r', waited := true, respMethod := r'.method, unsent := p.unsent ++ [(p.conn, s)] },
+           [Effect.send p.conn s], none⟩) := by
   unfold transmitRequest
   simp only []
   split
   · left; exact ⟨_, rfl⟩
   · rename_i r' s h
     right; exact ⟨r', s, h, rfl⟩
+
+/-! ## `drain` touches only the transmit queue -/
+
+@[simp] theorem drain_es (o : Out) : (drain o).es = o.es := rfl
+@[simp] theorem drain_err (o : Out) : (drain o).err = o.err := rfl
+@[simp] theorem drain_conn (o : Out) : (drain o).p.conn = o.p.conn := rfl
+@[simp] theorem drain_req (o : Out) : (drain o).p.req = o.p.req := rfl
+@[simp] theorem drain_redirects (o : Out) : (drain o).p.redirects = o.p.redirects := rfl
+@[simp] theorem drain_responses (o : Out) : (drain o).p.responses = o.p.responses := rfl
+@[simp] theorem drain_waited (o : Out) : (drain o).p.waited = o.p.waited := rfl
+@[simp] theorem drain_redirectable (o : Out) : (drain o).p.redirectable = o.p.redirectable := rfl
+@[simp] theorem drain_queue (o : Out) : (drain o).p.queue = o.p.queue := rfl
+@[simp] theorem drain_respMethod (o : Out) : (drain o).p.respMethod = o.p.respMethod := rfl
+@[simp] theorem drain_unsent (o : Out) : (drain o).p.unsent = [] := rfl
 
 /-! ## `parseLocation` -/
 
